@@ -23,6 +23,7 @@ import (
 	"github.com/ethereum/go-ethereum/core/vm"
 
 	"github.com/functionx/fx-core/v8/contract"
+	fxtypes "github.com/functionx/fx-core/v8/types"
 	crosschaintypes "github.com/functionx/fx-core/v8/x/crosschain/types"
 	erc20types "github.com/functionx/fx-core/v8/x/erc20/types"
 
@@ -35,7 +36,8 @@ type env struct {
 	x      *lib.XChain
 	r      *lib.Rand
 	rep    *lib.Report
-	toks   []tok.Token // native-coin pairs on eth, ids 0..; base denoms sort like the ids
+	toks   []tok.Token // bridged tokens on eth, model ids 0..3: 0-2 pairs owned by the module, 3 a pair owned externally (ERC-20 is the origin); base denoms sort like the ids
+	fx     tok.Token   // model id -1: the FX bridge token (base coin = the native coin, ERC-20 = WFX); "FX" sorts before every other base denom
 	nonce  uint64      // last event nonce voted by every oracle on c.Ctx
 	extH   uint64
 	search bool
@@ -102,6 +104,23 @@ func (e *env) setup(seed int64) {
 	e.x.SetupOracles([]int64{10_000, 10_000})
 	for i := 0; i < 3; i++ {
 		e.toks = append(e.toks, tok.AddToken(c, c.Ctx, "eth", i, true))
+	}
+	{ // token 3: externally owned pair — the crosschain module holds the locked bridge tokens, the erc20 module the ERC-20
+		t := tok.AddToken(c, c.Ctx, "eth", 3, false)
+		e.toks = append(e.toks, t)
+		lib.Must(c.App.BankKeeper.MintCoins(c.Ctx, "eth", sdk.NewCoins(sdk.NewCoin(t.BridgeDenom, sdkmath.NewInt(1_000_000)))))
+		mod := common.BytesToAddress(c.App.AccountKeeper.GetModuleAddress(erc20types.ModuleName))
+		lib.Must(c.App.EvmKeeper.ERC20Mint(c.Ctx, t.Erc20, mod, mod, big.NewInt(1_000_000)))
+	}
+	{ // FX as a bridge token: registered by a bridge-token claim with symbol FX; the module holds the FX that was bridged out
+		contractFX := lib.EthKey(seed, "fx-on-eth", 0).Hex().Hex()
+		lib.Must(e.x.Keeper.AddBridgeTokenExecuted(c.Ctx, &crosschaintypes.MsgBridgeTokenClaim{TokenContract: contractFX, Name: "Function X", Symbol: fxtypes.DefaultDenom, Decimals: 18, ChainName: "eth"}))
+		lib.Must(c.App.BankKeeper.MintCoins(c.Ctx, "eth", sdk.NewCoins(sdk.NewCoin(fxtypes.DefaultDenom, sdkmath.NewInt(1_000_000)))))
+		wfx, ok := tok.FxPair(c, c.Ctx)
+		if !ok {
+			panic("no FX token pair")
+		}
+		e.fx = tok.Token{Base: fxtypes.DefaultDenom, Module: "eth", Contract: contractFX, BridgeDenom: fxtypes.DefaultDenom, Erc20: wfx, NativeCoin: true}
 	}
 	lib.Must(c.NextBlock())
 	mk := func(i byte, code []byte) common.Address {
@@ -181,6 +200,8 @@ type bcCase struct {
 	Refund     string     `json:"refund"`      // same|poor|rich
 	SendCallTo bool       `json:"send_call_to"`
 	SenderIsRefund bool   `json:"sender_is_refund"`
+	Value      int64      `json:"value"`       // msg.Value handed to the callee by the callback sender (or the claim's sender for send-call-to)
+	FundCaller bool       `json:"fund_caller"` // whether that payer holds the value
 	ViaEVM     bool       `json:"via_evm"`     // executed by an ordinary account through the executeClaim precompile (real EVM transaction path)
 }
 
@@ -189,7 +210,7 @@ func (e *env) genBridgeCall() bcCase {
 	var k bcCase
 	nt := r.Intn(5)
 	for i := 0; i < nt; i++ {
-		id := int64(r.Intn(3))
+		id := tokenIDs[r.Intn(len(tokenIDs))]
 		amt := int64(1 + r.Intn(1000))
 		if r.Chance(6) {
 			amt = 0
@@ -200,10 +221,14 @@ func (e *env) genBridgeCall() bcCase {
 		k.Tokens[r.Intn(nt)][0] = 9
 	}
 	if r.Chance(45) {
-		k.Disabled = append(k.Disabled, r.Intn(3))
+		k.Disabled = append(k.Disabled, int(tokenIDs[r.Intn(len(tokenIDs))]))
 		if r.Chance(20) {
-			k.Disabled = append(k.Disabled, r.Intn(3))
+			k.Disabled = append(k.Disabled, int(tokenIDs[r.Intn(len(tokenIDs))]))
 		}
+	}
+	if r.Chance(25) {
+		k.Value = int64(1 + r.Intn(50))
+		k.FundCaller = r.Chance(70)
 	}
 	k.Target = []string{"eoa", "stop", "revert", "invalid", "loop", "writerevert", "writestop", "gas", "revert", "writerevert"}[r.Intn(10)]
 	k.LowGas = (k.Target == "gas" && r.Chance(70)) || r.Chance(10)
@@ -275,6 +300,17 @@ func (e *env) bridgeCallCorpus() []string {
 		{Tokens: [][2]int64{{2, 8}}, Target: "invalid", Refund: "same", SendCallTo: true, SenderIsRefund: true},
 		{Tokens: [][2]int64{{2, 8}}, Target: "revert", Refund: "same", SendCallTo: true, SenderIsRefund: false},
 		{Tokens: nil, Target: "writerevert", Refund: "same"},
+		// every token kind in one claim (FX, module-owned pair, externally owned pair), duplicates, foreign refund address
+		{Tokens: [][2]int64{{3, 6}, {-1, 4}, {0, 10}, {3, 1}}, Target: "writerevert", Refund: "poor"},
+		{Tokens: [][2]int64{{3, 6}, {-1, 4}, {0, 10}}, Disabled: []int{3}, Target: "stop", Refund: "rich"},
+		{Tokens: [][2]int64{{-1, 40}, {2, 5}}, Disabled: []int{-1}, Target: "eoa", Refund: "same"},
+		{Tokens: [][2]int64{{-1, 40}, {3, 5}}, Target: "writestop", Refund: "same"},
+		// msg.Value: paid by the callback sender inside the cache branch; short payer = the call is refused
+		{Tokens: [][2]int64{{1, 9}}, Target: "writestop", Refund: "poor", Value: 7, FundCaller: true},
+		{Tokens: [][2]int64{{1, 9}}, Target: "writerevert", Refund: "poor", Value: 7, FundCaller: true},
+		{Tokens: [][2]int64{{1, 9}}, Target: "stop", Refund: "poor", Value: 7, FundCaller: false},
+		{Tokens: [][2]int64{{-1, 30}}, Target: "stop", Refund: "same", Value: 7, FundCaller: false, SendCallTo: true, SenderIsRefund: true},
+		{Tokens: [][2]int64{{3, 2}}, Target: "revert", Refund: "poor", Value: 3, FundCaller: true, ViaEVM: true},
 		{Tokens: [][2]int64{{1, 5}, {0, 10}, {1, 2}}, Target: "writerevert", Refund: "same", ViaEVM: true},
 		{Tokens: [][2]int64{{0, 3}, {1, 4}}, Disabled: []int{1}, Target: "stop", Refund: "same", ViaEVM: true},
 		{Tokens: [][2]int64{{0, 10}}, Target: "revert", Refund: "poor", ViaEVM: true},
@@ -285,6 +321,17 @@ func (e *env) bridgeCallCorpus() []string {
 	}
 	return out
 }
+
+func (e *env) tokByID(id int64) tok.Token {
+	if id == -1 {
+		return e.fx
+	}
+	return e.toks[id]
+}
+
+var tokenIDs = []int64{-1, 0, 1, 2, 3}
+
+func (e *env) callbackFrom() common.Address { return e.x.Keeper.GetCallbackFrom() }
 
 func (e *env) target(name string) (common.Address, bool, bool, int64) {
 	// address, isContract, fails (by construction), value written to slot 0 before returning/failing
@@ -355,27 +402,41 @@ func (e *env) bridgeCallCase(k bcCase) string {
 		}
 	}
 	for _, d := range k.Disabled {
-		tok.SetEnabled(c, B, e.toks[d], false)
+		tok.SetEnabled(c, B, e.tokByID(int64(d)), false)
 	}
 	if k.Refund == "rich" {
-		for _, t := range e.toks {
+		for _, id := range tokenIDs {
+			t := e.tokByID(id)
 			coins := sdk.NewCoins(sdk.NewCoin(t.Base, sdkmath.NewInt(100_000)))
 			lib.Must(c.App.BankKeeper.MintCoins(B, "mint", coins))
 			lib.Must(c.App.BankKeeper.SendCoinsFromModuleToAccount(B, "mint", refund.Bytes(), coins))
-			// keep the bridge accounting balanced: the module holds the bridge tokens behind these base coins
-			bc := sdk.NewCoins(sdk.NewCoin(t.BridgeDenom, sdkmath.NewInt(100_000)))
-			lib.Must(c.App.BankKeeper.MintCoins(B, "eth", bc))
+			if id >= 0 && id <= 2 {
+				// keep the bridge accounting balanced: the module holds the bridge tokens behind these base coins
+				bc := sdk.NewCoins(sdk.NewCoin(t.BridgeDenom, sdkmath.NewInt(100_000)))
+				lib.Must(c.App.BankKeeper.MintCoins(B, "eth", bc))
+			}
 		}
 	}
+	payer := e.callbackFrom()
+	if k.SendCallTo {
+		payer = sender
+	}
+	if k.Value > 0 && k.FundCaller {
+		coins := sdk.NewCoins(sdk.NewCoin(fxtypes.DefaultDenom, sdkmath.NewInt(k.Value+5)))
+		funder := lib.EthKey(c.Seed, "value-funder", 0).Acc()
+		lib.Must(c.App.BankKeeper.MintCoins(B, "mint", coins))
+		lib.Must(c.App.BankKeeper.SendCoinsFromModuleToAccount(B, "mint", funder, coins))
+		lib.Must(c.App.BankKeeper.SendCoins(B, funder, payer.Bytes(), coins))
+	}
 	msg := &crosschaintypes.MsgBridgeCallClaim{
-		Sender: sender.Hex(), Refund: refund.Hex(), To: to.Hex(), Value: sdkmath.ZeroInt(), TxOrigin: sender.Hex(),
+		Sender: sender.Hex(), Refund: refund.Hex(), To: to.Hex(), Value: sdkmath.NewInt(k.Value), TxOrigin: sender.Hex(),
 	}
 	unknown := lib.EthKey(c.Seed, "unknown-token", 0).Hex().Hex()
 	for _, ta := range k.Tokens {
 		if ta[0] == 9 {
 			msg.TokenContracts = append(msg.TokenContracts, unknown)
 		} else {
-			msg.TokenContracts = append(msg.TokenContracts, e.toks[ta[0]].Contract)
+			msg.TokenContracts = append(msg.TokenContracts, e.tokByID(ta[0]).Contract)
 		}
 		msg.Amounts = append(msg.Amounts, sdkmath.NewInt(ta[1]))
 	}
@@ -390,7 +451,7 @@ func (e *env) bridgeCallCase(k bcCase) string {
 	// ---- ids and watched keys of the abstract case
 	holders := []common.Address{}
 	hid := map[common.Address]int64{}
-	for _, a := range []common.Address{to, refund, sender} {
+	for _, a := range []common.Address{to, refund, sender, payer} {
 		if _, ok := hid[a]; !ok {
 			hid[a] = int64(len(holders) + 1)
 			holders = append(holders, a)
@@ -400,15 +461,25 @@ func (e *env) bridgeCallCase(k bcCase) string {
 		h, kind, t int64
 	}
 	var keys []wk
-	for t := range e.toks {
+	for _, t := range tokenIDs {
 		for _, a := range holders {
-			keys = append(keys, wk{hid[a], 0, int64(t)}, wk{hid[a], 2, int64(t)})
+			keys = append(keys, wk{hid[a], 0, t}, wk{hid[a], 2, t})
 		}
-		keys = append(keys, wk{-1, 1, int64(t)}, wk{-2, 0, int64(t)}, wk{-3, 0, int64(t)}, wk{-3, 1, int64(t)}, wk{-3, 2, int64(t)})
+		if t == -1 { // FX: held by the crosschain module, the erc20 module (in passing) and the WFX contract; WFX supply
+			keys = append(keys, wk{-1, 0, t}, wk{-2, 0, t}, wk{-5, 0, t}, wk{-3, 2, t})
+			continue
+		}
+		keys = append(keys, wk{-1, 1, t}, wk{-2, 0, t}, wk{-2, 2, t}, wk{-3, 0, t}, wk{-3, 1, t}, wk{-3, 2, t})
 	}
 	read := func(ctx sdk.Context, k wk) *big.Int {
-		t := e.toks[k.t]
+		t := e.tokByID(k.t)
 		switch {
+		case k.h == -1 && k.kind == 0:
+			return tok.Bank(c, ctx, c.App.AccountKeeper.GetModuleAddress("eth"), t.Base).BigInt()
+		case k.h == -5:
+			return tok.Bank(c, ctx, t.Erc20.Bytes(), t.Base).BigInt()
+		case k.h == -2 && k.kind == 2:
+			return tok.BalanceOf(c, ctx, t.Erc20, common.BytesToAddress(c.App.AccountKeeper.GetModuleAddress(erc20types.ModuleName)))
 		case k.h > 0 && k.kind == 0:
 			return tok.Bank(c, ctx, holders[k.h-1].Bytes(), t.Base).BigInt()
 		case k.h > 0 && k.kind == 2:
@@ -433,6 +504,7 @@ func (e *env) bridgeCallCase(k bcCase) string {
 		return lib.List(items)
 	}
 	preBal := snapshot(B)
+	payerFX := tok.Bank(c, B, payer.Bytes(), fxtypes.DefaultDenom).BigInt()
 	evm0 := c.App.EvmKeeper.GetState(B, to, common.Hash{}).Big()
 	callsBefore := map[uint64]bool{}
 	x.Keeper.IterateOutgoingBridgeCalls(B, func(o *crosschaintypes.OutgoingBridgeCall) bool { callsBefore[o.Nonce] = true; return false })
@@ -464,10 +536,10 @@ func (e *env) bridgeCallCase(k bcCase) string {
 		}
 		var ts []string
 		for _, t := range o.Tokens {
-			id := int64(-1)
-			for i, tk := range e.toks {
-				if tk.Contract == t.Contract {
-					id = int64(i)
+			id := int64(-99)
+			for _, tid := range tokenIDs {
+				if e.tokByID(tid).Contract == t.Contract {
+					id = tid
 				}
 			}
 			ts = append(ts, lib.Pair(lib.Z(id), lib.ZBig(t.Amount.BigInt())))
@@ -497,7 +569,17 @@ func (e *env) bridgeCallCase(k bcCase) string {
 			disabledHit = true
 		}
 	}
-	innerFails := !hasUnknown && (disabledHit || (isContract && fails))
+	// msg.Value the payer cannot cover: the EVM refuses the call (only when there is a callee at all)
+	valueShort := false
+	if k.Value > 0 && isContract {
+		// (balance read on the pre-state; the deposits may add FX to the payer only if it is the receiver)
+		have := payerFX
+		if payer == receiver {
+			have = new(big.Int).Add(have, big.NewInt(sums[-1]))
+		}
+		valueShort = have.Cmp(big.NewInt(k.Value)) < 0
+	}
+	innerFails := !hasUnknown && (disabledHit || (isContract && (fails || valueShort)))
 	wroteInside := innerFails && (len(sums) > 0 || writes != 0)
 
 	// ---- monitor: designated outcome on a second fresh branch, full dump comparison
@@ -543,20 +625,20 @@ func (e *env) bridgeCallCase(k bcCase) string {
 		toks = append(toks, lib.Pair(lib.Z(ta[0]), lib.Z(ta[1])))
 	}
 	var en []int64
-	for t := range e.toks {
+	for _, t := range tokenIDs {
 		dis := false
 		for _, d := range k.Disabled {
-			if d == t {
+			if int64(d) == t {
 				dis = true
 			}
 		}
 		if !dis {
-			en = append(en, int64(t))
+			en = append(en, t)
 		}
 	}
-	return fmt.Sprintf("mk_bc_case %s [0; 1; 2] %s true %d %d %d %d %s %s %s %s %d %s %s %s %s %s %s",
-		preBal, lib.ZList(en), nonce, hid[sender], hid[refund], hid[to], lib.Bool(isContract), lib.Bool(k.SendCallTo), lib.List(toks),
-		lib.Bool(fails), writes, lib.ZBig(evm0),
+	return fmt.Sprintf("mk_bc_case %s %s %s [((-1), 2); (3, 1)] true %d %d %d %d %s %s %s %d %d %s %d %s %s %s %s %s %s",
+		preBal, lib.ZList(tokenIDs), lib.ZList(en), nonce, hid[sender], hid[refund], hid[to], lib.Bool(isContract), lib.Bool(k.SendCallTo), lib.List(toks),
+		k.Value, hid[payer], lib.Bool(fails), writes, lib.ZBig(evm0),
 		lib.Bool(err == nil), postBal, lib.List(newCalls), lib.Bool(stillPending), lib.ZBig(evm1))
 }
 
@@ -582,7 +664,8 @@ func (e *env) designatedBridgeCall(ctx sdk.Context, msg *crosschaintypes.MsgBrid
 		t    crosschaintypes.ERC20Token
 	}
 	var ents []ent
-	for _, t := range e.toks {
+	for _, id := range tokenIDs {
+		t := e.tokByID(id)
 		if v, ok := sum[t.Contract]; ok && v.IsPositive() {
 			ents = append(ents, ent{t.Base, crosschaintypes.NewERC20Token(v, t.Contract)})
 		}
